@@ -55,7 +55,11 @@ func (fr *FnRun) resolveMods() []modLoc {
 						out = append(out, modLoc{obj: mv.Obj, whole: true, src: m.String()})
 						return
 					}
-					if s, ok := ex.force(entry, fr.eval(m.Args[0], env)).(*SliceV); ok && s.Arr != nil {
+					cv := ex.force(entry, fr.eval(m.Args[0], env))
+					if pv, isPtr := cv.(*PtrV); isPtr {
+						cv = ex.force(entry, ex.load(entry, pv))
+					}
+					if s, ok := cv.(*SliceV); ok && s.Arr != nil {
 						out = append(out, modLoc{obj: s.Arr, path: s.Base, whole: len(s.Base) == 0, src: m.String()})
 					}
 					return
